@@ -125,6 +125,12 @@ def run(ctx, info):
             for mode, wk in (("thread", r.choice([1, 3, 8])), ("process", r.choice([2, 4]))):
                 jobs.append({"opt": nm, "cfg": {"population_size": int(P0 * r.choice([1, 1.5])), "max_cycles": 2, "fitness_error": None}, "mode": mode, "workers": wk,
                              "task": search.cont_task(obj="sphere", seed=r.randint(0, 10**6))})
+    # HyperTuner style: an instance that already ran with ANOTHER population size is reconfigured and run again: every recorded generation has the NEW size
+    for nm in (search.all_names() if not ctx.quick else sorted(by_design) + irregular + r.sample(regular_now, 10)):
+        P0 = search.fixture_scale(nm)["population_size"]
+        P1, P2 = r.choice([(P0, int(P0 * 1.5)), (2 * P0, P0), (int(P0 * 1.5), 2 * P0)])
+        jobs.append({"opt": nm, "cfg": {"population_size": P2, "max_cycles": 2, "fitness_error": None}, "first_cfg": {"population_size": P1, "max_cycles": 2, "fitness_error": None},
+                     "sequence": [{"task": search.cont_task(obj="sphere", seed=r.randint(0, 10**6))}], "task": search.cont_task(obj="sphere", seed=r.randint(0, 10**6))})
     obs = search.run_jobs(jobs)
     n_ok = 0
     invalid_cfg = 0
